@@ -111,6 +111,11 @@ def c01_oracle(case, impl):
         return pv
     region = region_of(case)
     secs = sections(impl)
+    if len(region) >= 4 and le(region, 0, 4) < 8 and secs.get("ld", "") != "err:ShorterThanHeader":
+        # the region declares fewer bytes than a header has: nothing but the size word itself belongs to it, so whatever else
+        # the outcome was derived from (the reserved word, an "end tag") lies outside the declared region
+        return ("declared total size %d is below the header size: the only outcome that interprets no byte outside the declared "
+                "region is ShorterThanHeader, got ld=%s" % (le(region, 0, 4), secs.get("ld", "")))
     if not secs.get("ld", "").startswith("ok"):
         return None
     total = le(region, 0, 4)
